@@ -49,11 +49,9 @@ func verifDiskWriteModel(filename string, data []byte, perm os.FileMode) error {
 		ghostLog("disk.write.failed")
 		return verifErrInjected
 	}
-	ino := verifFS.files[filename]
-	if ino == nil {
-		ino = &verifInode{}
-		verifFS.files[filename] = ino
-	}
+	// a NEW file takes the name (rename): other names of the old file (hard links) keep the old contents
+	ino := &verifInode{}
+	verifFS.files[filename] = ino
 	ino.content, ino.complete, ino.durable, ino.durableOK, ino.mode, ino.written = data, true, data, true, perm, true
 	ghostLog("disk.write")
 	return nil
@@ -96,7 +94,12 @@ func verifC03Step(op int) {
 
 	// restart: reopen the file with the same key; must equal the live state exactly
 	reads0 := ghostCount("disk.write")
+	// between the runs the file may have been restored from a backup or copied by an operator: any mode bits
+	restoredMode := os.FileMode(nondetU32("mode.at.restart") & 0777)
+	verifFS.files[k.path].mode = restoredMode
+	atRestart := verifFS.files[k.path]
 	k2, err := openOrCreateKV(k.path, kek)
+	assert("opening-never-modifies-the-file", and(verifFS.files[k.path] == atRestart, atRestart.mode == restoredMode, ghostCount("fs.write") == 0, ghostCount("fs.rename") == 0))
 	assert("reopen-ok", and(err == nil, k2 != nil))
 	assert("reopen-state-equals-acknowledged-state", deepEq(k2.secrets, k.secrets))
 	assert("reopen-does-not-write", ghostCount("disk.write") == reads0)
@@ -155,12 +158,14 @@ func verifHarnessC03SchemaV1() {
 	})
 	path := "/state/old.db"
 	verifFS.livePath = path
-	verifFS.files[path] = &verifInode{content: file, complete: true, durable: file, durableOK: true, mode: 0600}
+	fileMode := os.FileMode(nondetU32("old.file.mode") & 0777) // written by an older release, restored, copied: any mode bits
+	oldFile := &verifInode{content: file, complete: true, durable: file, durableOK: true, mode: fileMode}
+	verifFS.files[path] = oldFile
 
 	k, err := openOrCreateKV(path, kek)
 
 	assert("opening-never-modifies-the-file", and(ghostCount("disk.write") == 0, ghostCount("fs.write") == 0, ghostCount("fs.rename") == 0,
-		sameBacking(verifFS.files[path].content, file)))
+		verifFS.files[path] == oldFile, oldFile.mode == fileMode, sameBacking(verifFS.files[path].content, file)))
 	if schema != 1 {
 		assert("other-schema-versions-rejected", and(err != nil, k == nil))
 		reach("end-other-version")
@@ -362,6 +367,13 @@ func verifHarnessC05Tamper() {
 	k := verifSymKVOnDisk(kek, param("secrets"), param("versions"))
 	assume(verifKVInv(k))
 	assume(k.save() == nil)
+	if nondetBool("saved.twice") {
+		// the file has a history: an earlier generation was written before the current one (whatever else save leaves
+		// in the directory -- backups, previous generations -- stays where it is when the live file is damaged)
+		mapPutIf(k.secrets, nondetString("later.name"), verifSymSecret(1), true)
+		assume(verifKVInv(k))
+		assume(k.save() == nil)
+	}
 	var a verifV1Wrapped
 	assume(jsonBlobAs(verifFS.files[k.path].content, &a))
 	mode := nondetChoice("tamper", 8)
@@ -463,3 +475,57 @@ func verifHarnessC05ReopenedPut()           { verifC05Reopened(opPut) }
 func verifHarnessC05ReopenedActivate()      { verifC05Reopened(opActivate) }
 func verifHarnessC05ReopenedDeleteVersion() { verifC05Reopened(opDeleteVersion) }
 func verifHarnessC05ReopenedDelete()        { verifC05Reopened(opDelete) }
+
+// C04 through the database's own save path: kv.save with the REAL atomicfile.WriteFile over the file-system model, a fault
+// or a kill before every file-system call. Whatever save does around the atomic write (fall-backs, retries, extra
+// files) is subject to the same rules: the live file is never opened for writing or written in place, an error leaves
+// it exactly as it was, a kill leaves the complete old or the complete new document on stable storage.
+func verifHarnessC04SaveReal() {
+	verifEnvReset()
+	kek := &verifKEK{key: verifKEKID}
+	k := verifSymKVOnDisk(kek, param("secrets"), param("versions"))
+	assume(verifKVInv(k))
+	assume(verifKVBound(k))
+	assume(k.save() == nil) // the file as an earlier run left it
+	oldIno := verifFS.files[k.path]
+	old := oldIno.content
+	// a change in memory (what a mutation does before it saves)
+	mapPutIf(k.secrets, nondetString("name"), verifSymSecret(1), true)
+	verifFS.faults, verifFS.crashes = true, true
+	crashed := false
+	var err error
+	func() {
+		defer func() {
+			if r := recover(); r != nil {
+				if _, ok := r.(verifCrash); ok {
+					crashed = true
+					return
+				}
+				panic(r)
+			}
+		}()
+		err = k.save()
+	}()
+	verifFS.faults, verifFS.crashes = false, false
+	live := verifFS.files[k.path]
+	if crashed {
+		assert("crash-live-still-present", live != nil)
+		if live != nil {
+			assert("crash-old-or-new-complete-document", and(live.durableOK, or(sameBacking(live.durable, old), live != oldIno)))
+		}
+		reach("end-crash")
+		return
+	}
+	if err != nil {
+		assert("error-leaves-live-untouched", live == oldIno)
+		if live != nil {
+			assert("error-content-untouched", and(sameBacking(live.content, old), sameBacking(live.durable, old)))
+		}
+		reach("end-error")
+		return
+	}
+	assert("ok-live-is-a-new-file", and(live != nil, live != oldIno))
+	assert("ok-durable-and-owner-only", and(live.durableOK, sameBacking(live.durable, live.content), live.mode == 0600))
+	assert("old-file-never-modified", and(sameBacking(oldIno.content, old), sameBacking(oldIno.durable, old)))
+	reach("end-ok")
+}
